@@ -433,6 +433,9 @@ func EvalArgFirst(s *Scope, args List, index, depth int) (v Object) {
 		if 0 < len(vs) {
 			v = vs[0]
 		}
+		if list, ok := v.(List); ok && len(list) == 0 {
+			v = nil
+		}
 	}
 	return
 }
